@@ -1359,6 +1359,9 @@ func (st *Runtime) evaluateArgs(fnType reflect.Type, args CallArgs, pipedArg *re
 		in := fnType.In(slot)
 		var term reflect.Value
 		if args.Exprs[i].Type() == NodeUnderscore {
+			if pipedArg == nil {
+				return nil, fmt.Errorf("placeholder '_' at position %d in call to %s, but there is no piped value", slot, fnType)
+			}
 			term = *pipedArg
 		} else {
 			term = st.evalPrimaryExpressionGroup(args.Exprs[i])
@@ -1382,6 +1385,9 @@ func (st *Runtime) evaluateArgs(fnType reflect.Type, args CallArgs, pipedArg *re
 		for i < len(args.Exprs) {
 			var term reflect.Value
 			if args.Exprs[i].Type() == NodeUnderscore {
+				if pipedArg == nil {
+					return nil, fmt.Errorf("placeholder '_' at position %d in call to %s, but there is no piped value", slot, fnType)
+				}
 				term = *pipedArg
 			} else {
 				term = st.evalPrimaryExpressionGroup(args.Exprs[i])
